@@ -637,6 +637,15 @@ def openModel (fsel : FmtSel) (asel : AbcSel) (fname : Option Bytes) (lines : Li
   | .fail => .enoformat
   | .ok (fmt, nw) => openAbc fmt nw asel lines
 
+/-- `msafile_OpenBuffer` when the caller supplies an `ESL_MSAFILE_FMTDATA` with `namewidth = nw0` (`if (fmtd) esl_msafile_fmtdata_Copy(fmtd,
+    &afp->fmtd)`): a declared format keeps it (only the PHYLIP readers and the PHYLIP alphabet guesser look at it); under
+    autodetection `esl_msafile_GuessFileFormat` first re-initialises `afp->fmtd` (`esl_msafile_fmtdata_Init(opt_fmtd)`), so the
+    caller's value is forgotten -/
+def openModelW (nw0 : Nat) (fsel : FmtSel) (asel : AbcSel) (fname : Option Bytes) (lines : List Bytes) : OpenRes :=
+  match fsel with
+  | .decl f => openAbc f nw0 asel lines
+  | .auto => openModel .auto asel fname lines
+
 /-- the same on a byte string -/
 def openBytes (fsel : FmtSel) (asel : AbcSel) (fname : Option Bytes) (src : Bytes) : OpenRes :=
   openModel fsel asel fname (splitLines src)
